@@ -516,11 +516,14 @@ func (r *reporter) histogramVec(
 		return h.histogram, nil
 	}
 
+	// n.b. The vector keeps the bounds for as long as it lives, so it gets a
+	//      copy: the slice belongs to the caller (for value buckets AsValues
+	//      returns the caller's own slice), who may reuse it afterwards.
 	h := prom.NewHistogramVec(
 		prom.HistogramOpts{
 			Name:    name,
 			Help:    desc,
-			Buckets: buckets,
+			Buckets: append([]float64(nil), buckets...),
 		},
 		tagKeys,
 	)
